@@ -924,7 +924,11 @@ class EventBus:
                     self._on_idle.set()
                 return None
 
-        except (asyncio.CancelledError, RuntimeError, QueueShutDown):
+        except asyncio.CancelledError:
+            # The run loop task itself is being cancelled (e.g. by asyncio.run() at exit): never swallow that
+            get_next_queued_event.cancel()
+            raise
+        except (RuntimeError, QueueShutDown):
             # Clean cancellation during shutdown or queue was shut down
             return None
 
